@@ -7,7 +7,6 @@ def outputSites : List (String × String) := [
   ("main.rs", "eprintln!"),
   ("output.rs", "print!"),
   ("output.rs", "eprint!"),
-  ("parser/parser.rs", "eprintln!"),
   ("splash.rs", "println!"),
   ("splash.rs", "println!"),
   ("standard_library/io.rs", "display!"),
